@@ -1,4 +1,4 @@
-import Wip.ModsPaired
+import Cutadapt.Proofs.ModsPaired
 import Cutadapt.Stats
 /-! The rows of the info file (`InfoFileWriter`), written as a recursion over the parts of the matches. Core Lean only. -/
 namespace Cutadapt
@@ -125,8 +125,7 @@ theorem matchAndTrim_parts (c : Cutter) (read tr ra : Read) (ms : List AnyMatch)
 theorem applyS_parts (names : Names) (side : Nat) (m : SMod) (r r' : Read) (i i' : Info) (evs : List Event)
     (hi : ∀ x ∈ i.mts, x.parts ≠ []) (h : applyS names side m r i = .ok (r', i', evs)) : ∀ x ∈ i'.mts, x.parts ≠ [] := by
   by_cases ht : m.isTrimmer = true
-  · have hq : ∀ (r : Read), True := fun _ => trivial
-    -- trimmers leave the matches alone (the `QualOK` hypothesis of `applyS_trimmer` is not needed for that part)
+  · -- trimmers leave the matches alone (the `QualOK` hypothesis of `applyS_trimmer` is not needed for that part)
     cases m with
     | cut n =>
       simp only [applyS] at h
